@@ -52,6 +52,13 @@ PRIM_HARNESSES = [
          {'defines': ['NB=4'], 'bound': 'buffer length 0..4, 3 reads from 9 kinds, sizes 0..6', 'timeout': 110, 'jobs': 8},
          {'defines': ['NB=6'], 'bound': 'buffer length 0..6, 3 reads, sizes 0..8', 'timeout': 1500, 'jobs': 16}),
 ]
-HARNESSES = PRIM_HARNESSES + list(ENTITY_HARNESSES)
+def val(name, macro, covers=(1,)):
+    return {'name': 'v_' + name, 'src': 'C11/h_value.cpp', 'entry': 'h_value', 'repo_srcs': srcsets.SERDE, 'defines': [macro], 'covers': list(covers), 'jobs': 4,
+            'obligations': ['%s (value-first): decode(encode(x)) == x for symbolic field values and legal field lengths, estimateSize(x) == encoded length, input fully consumed; values at the size limits decode, oversize is rejected' % name],
+            'rungs': {'quick': [{'bound': 'all field values symbolic; field lengths 0..3 plus the boundary lengths (1, 64, 255..257, 1023..1025, 32)', 'timeout': 200}], 'thorough': [{'bound': 'as quick', 'timeout': 400}]}}
+
+
+VALUE_HARNESSES = [val('keystone', 'V_KEYSTONE'), val('ctxinfo', 'V_CTX'), val('authctx', 'V_AUTHCTX'), val('pubdata', 'V_PUBDATA', covers=(1, 2)), val('altblock', 'V_ALTBLOCK')]
+HARNESSES = PRIM_HARNESSES + list(ENTITY_HARNESSES) + VALUE_HARNESSES
 EXPLANATION = 'Byte-first exploration: the real decoders/encoders/estimateSize of each entity run symbolically on every byte string up to the stated length.'
 ASSUMPTIONS = ['Address/Output: a successful decode needs a 30-character text with a valid SHA-256 checksum, unreachable for short arbitrary strings; only the rejecting paths (incl. base58/base59 encoding of arbitrary bytes) are explored', 'ids and hashes (SHA-256 / vBlake / progpow) are not encoded', 'ATV/VTB/VbkTx/VbkPopTx/PopData as wholes are outside (their smallest valid encodings are hundreds of bytes)']
